@@ -119,6 +119,7 @@ type timer struct {
 	seq uint64
 	t   *Task
 	f   func()
+	vc  VC
 }
 
 // Sim is the state of one run.
@@ -797,10 +798,30 @@ func (s *Sim) Sleep(d int64) {
 	s.Block(fmt.Sprintf("Sleep(until=%d)", t.until))
 }
 
-// AfterFunc runs f as a new task after d nanoseconds.
-func (s *Sim) AfterFunc(d int64, name string, f func()) {
+// AfterFunc runs f as a new task after d nanoseconds; the result identifies
+// the pending timer for CancelTimer.
+func (s *Sim) AfterFunc(d int64, name string, f func()) uint64 {
+	if d < 0 {
+		d = 0
+	}
 	s.tseq++
-	s.timers = append(s.timers, timer{at: s.now + d, seq: s.tseq, f: f})
+	tm := timer{at: s.now + d, seq: s.tseq, f: f}
+	if s.hb != nil && s.cur != nil {
+		tm.vc = s.Release(nil)
+	}
+	s.timers = append(s.timers, tm)
+	return s.tseq
+}
+
+// CancelTimer removes a pending timer; false if it fired already.
+func (s *Sim) CancelTimer(seq uint64) bool {
+	for i, tm := range s.timers {
+		if tm.seq == seq && tm.f != nil {
+			s.timers = append(s.timers[:i], s.timers[i+1:]...)
+			return true
+		}
+	}
+	return false
 }
 
 func (s *Sim) fireTimer(eager bool) {
@@ -825,6 +846,9 @@ func (s *Sim) fireTimer(eager bool) {
 		s.MakeRunnable(tm.t)
 	} else if tm.f != nil {
 		t := s.newTask("timer", nil)
+		if tm.vc != nil {
+			t.vc = t.vc.join(tm.vc)
+		}
 		go s.taskMain(t, tm.f, false)
 	}
 }
